@@ -57,9 +57,23 @@ def precedence(ctx, rule='P4'):
                 ws = [w for w in E.writes(pf, blocks=reg) if effects.root_of(w[0]) == (pi_idx[0], ['palette'])]
                 total += len(ws)
                 if kind == 'Palette':
-                    ok = len(ws) == 1 and not [g for g in q.guards(pf, ws[0][3][1]) if g[2] in reg and g[0][0] != 'discr']
+                    # unconditional within the arm: every test between the arm's entry and the assignment has nothing but error exits on
+                    # its other side (the `?` of the decoder, written with ? or by hand).  A match on the palette seen so far (seed C11-h:
+                    # merge into it when present) makes the new-format chunk's effect depend on what came before
+                    def only_error_exit(g):
+                        cond, vals, a = g
+                        tm_ = pf.blocks[a]['term']
+                        taken = {tm_['otherwise']} if 'otherwise' in vals else set()
+                        taken |= {s_ for v_, s_ in tm_['targets'] if v_ in vals}
+                        others = [s_ for s_ in pf.cfg.succ[a] if s_ not in taken]
+                        dead = [s_ for s_ in others if pf.blocks[s_]['term'] and pf.blocks[s_]['term']['k'] == 'unreachable']
+                        return all(s_ in dead or q.arm_always_err(pf, s_) for s_ in others)
+                    ok = len(ws) == 1 and all(only_error_exit(g) for g in q.guards(pf, ws[0][3][1]) if g[2] in reg)
                     val = ws[0][1] if ws else None
                     okv = val is not None and any(x[0] == 'call' and x[1] == PAL + 'parse_chunk' for x in walk(val))
+                    # .. and the value is built from this chunk alone, not from the palette held so far
+                    if okv and any(isinstance(x, tuple) and x and x[0] == 'field' and effects.root_of(x) == (pi_idx[0], ['palette']) for x in walk(val)):
+                        okv = False
                     ctx.inst(rule, 'Palette', ok and okv, 'Palette chunk assigns parse_info.palette %s = %s'
                              % ('unconditionally' if ok else 'CONDITIONALLY or not at all', show(val)[:80] if val else None),
                              pf.blocks[s]['term'].get('span'), key=pf.name + '|' + rule + '|Palette')
@@ -98,7 +112,8 @@ def run(ctx):
         'unconditionally, legacy arms only under palette.is_none(), no other writer. Every Pixels::Indexed construction is '
         'dominated by a successful validate_indexed_pixels on the same data under Some(palette) (None -> Err), the validator '
         'scans the whole slice, and both cel and tileset pixels reach AsepriteFile only through RawPixels::validate. '
-        'Not decided: the numeric 6->8 bit mapping (recorded, not asserted) and IntMap semantics.')
+        'The two scaling end points the property names (0 -> 0, 63 -> 255) are decided by constant propagation through the result term; '
+        'the mapping of the other 62 values is not part of the statement. Not decided: IntMap semantics.')
     bindings = {}
     for fn in (PAL + 'parse_chunk', PAL + 'parse_old_chunk_04', PAL + 'parse_old_chunk_11'):
         bnd, _ = layout.check_layout(ctx, spec, fn, spec['decoders'][fn])
@@ -239,7 +254,18 @@ def run(ctx):
             ctx.inst('P3', 'scale#range', ok, '6-bit components: values up to %d accepted, larger -> %s (must accept exactly 0..63)'
                      % (max_ok, 'Err' if q.arm_always_err(sc, rej) else 'NOT rejected'), tm['span'], key=sc.name + '|P3|range')
         ctx.floor('6-bit range tests', n, 1)
-        ctx.note('scale_6bit_to_8bit result origin (recorded, not asserted): %s' % show(res(sc).ok_ret()))
+        # the two points the property names: constant propagation of 0 and 63 through the (call-free, straight-line) result term with
+        # u8 wrapping.  A form the propagation does not model is recorded as undecided, not reported (seed C11-g: `<< 2 + (..)`)
+        rt = res(sc).ok_ret()
+        pty = sc.locals[1]['ty']
+        for arg, want in ((0, 0), (63, 255)):
+            try:
+                got, _ = q.propagate_constants(rt, {a_: (arg, pty) for a_ in walk(rt) if isinstance(a_, tuple) and len(a_) == 3 and a_[0] == 'param' and a_[1] == 1})
+            except q.CannotEval as e:
+                ctx.note('scale_6bit_to_8bit(%d) not decided: the result term %s is outside the constant propagation (%s)' % (arg, show(rt)[:80], e))
+                continue
+            ctx.inst('P3', 'scale#%d' % arg, got == want, 'scale_6bit_to_8bit: constant %d propagates to %d through %s; the property demands %d'
+                     % (arg, got, show(rt)[:80], want), sc.span, key=sc.name + '|P3|endpoint-%d' % arg)
 
     precedence(ctx)
     # palette reaches the file unchanged
